@@ -15,7 +15,7 @@
 namespace dsim { extern thread_local int t_bypass; }
 
 namespace smc { int g_hash_mode = 0; }   // per-run hashing knob of the set/map subjects (one definition per binary)
-namespace smc { struct IBase; std::vector<IBase*>* g_ipool = nullptr; const vh::Ctx* g_consistency_ctx = nullptr; bool g_exclusive_functors = false; int g_functor_occupancy[64]; }   // node pool of the intrusive set subjects (subjects/intrusive_common.h)
+namespace smc { struct IBase; std::vector<IBase*>* g_ipool = nullptr; const vh::Ctx* g_consistency_ctx = nullptr; bool g_exclusive_functors = false; bool g_with_pred = false; int g_functor_occupancy[64]; }   // node pool of the intrusive set subjects (subjects/intrusive_common.h)
 
 namespace vh {
 
